@@ -20,7 +20,7 @@ type identity struct {
 	id   string // node id (128 hex) or wallet address (0x…)
 }
 
-var nodeIdents, walletIdents []*identity
+var nodeIdents, walletIdents, lcWalletIdents []*identity
 var identByName = map[string]*identity{}
 var nameByReal = map[string]string{}
 var realReplacer *strings.Replacer
@@ -48,7 +48,14 @@ func init() {
 		id := &identity{name: fmt.Sprintf("w%d", i), key: k, id: crypto.PubkeyToAddress(k.PublicKey).Hex()}
 		walletIdents = append(walletIdents, id)
 	}
-	for _, id := range append(append([]*identity{}, nodeIdents...), walletIdents...) {
+	// w0lc..w3lc: the same wallets (same keys) spelled in lower case - to the pool's ledger, whose accounts are
+	// keyed by the string, these are other accounts, while signatures made over that spelling verify
+	var lc []*identity
+	for _, w := range walletIdents {
+		lc = append(lc, &identity{name: w.name + "lc", key: w.key, id: strings.ToLower(w.id)})
+	}
+	lcWalletIdents = lc
+	for _, id := range append(append(append([]*identity{}, nodeIdents...), walletIdents...), lc...) {
 		identByName[id.name] = id
 		nameByReal[id.id] = id.name
 		pairs = append(pairs, id.id, id.name)
